@@ -16,7 +16,7 @@ pub fn def() -> PropDef {
         predicate,
         nontrivial,
         functional: true,
-        rule: "all maps with <= 3 (quick) / <= 4 (thorough) distinct keys over the key alphabet {1, 2, 1u, 2u, 3u, true, 'a', 'b'} with non-null values, written as literals and supplied as context variables, each queried with every key of the alphabet, the int/uint twin of every numeric key and absent keys through `k in m`, `m.contains(k)`, `m[k] != null`, and for the string keys `has(m.k)` / `m.k`; all int lists up to length 4 indexed with -2..len+1 and the i64 extremes; random strings and lists for size(a+b) = size(a)+size(b), order preservation, operands intact and `x in l` iff exists; the predicate recomputes presence / elements from the written map or list; non-trivial = the container is non-empty; distinct = distinct (context, source)",
+        rule: "all maps with <= 3 (quick) / <= 4 (thorough) distinct keys over the key alphabet {1, 2, 1u, 2u, 3u, true, 'a', 'b'} with non-null values, written as literals and supplied as context variables, each queried with every key of the alphabet, the int/uint twin of every numeric key and absent keys through `k in m`, `m.contains(k)`, `m[k] != null`, and for the string keys `has(m.k)` / `m.k`; entries whose value is the zero / empty value of its kind queried every way; all int lists up to length 4 indexed with -2..len+1 and the i64 extremes; random strings and lists for size(a+b) = size(a)+size(b), order preservation, operands intact and `x in l` iff exists; the predicate recomputes presence / elements from the written map or list; non-trivial = the container is non-empty; distinct = distinct (context, source)",
         post: super::no_post,
         exhaustive_note: "maps up to 3 keys x all queries and lists up to length 4 x all indices are enumerated completely in the quick tier",
     }
@@ -199,6 +199,23 @@ pub fn generate(tier: Tier, rng: &mut Rng) -> Vec<Case> {
             for (sp, m) in [(&default, lit.clone()), (&spec, "m".to_string())] {
                 push(&mut out, sp, format!("[has({m}.{fname}), '{fname}' in {m}, {m}.contains('{fname}'), {m}['{fname}'] != null]"), Some(format!("(ok (list {0} {0} {0} {0}))", b(present))), vec!["map", "function-named-field"]);
             }
+        }
+    }
+    // presence is about the key, not about the value: entries whose values are the zero / empty
+    // value of their kind are as present as any other, for every way of asking
+    for (vsrc, v) in [
+        ("0", Value::Int(0)), ("0u", Value::UInt(0)), ("0.0", Value::Float(0.0)), ("''", Value::String(Arc::new(String::new()))), ("false", Value::Bool(false)), ("[]", Value::List(Arc::new(vec![]))),
+        ("{}", Value::Map(Map { map: Arc::new(HashMap::new()) })), ("b''", Value::Bytes(Arc::new(vec![]))), ("1", Value::Int(1)), ("'x'", Value::String(Arc::new("x".into()))),
+    ] {
+        let lit = format!("{{'k': {vsrc}, 'other': 2}}");
+        let mut hm = HashMap::new();
+        hm.insert(Key::String(Arc::new("other".into())), Value::Int(2));
+        hm.insert(Key::String(Arc::new("k".into())), v.clone());
+        let mut spec = CtxSpec::default_ctx();
+        spec.vars.push(("m".into(), Value::Map(Map { map: Arc::new(hm) })));
+        for (sp, m) in [(&default, lit.clone()), (&spec, "m".to_string())] {
+            push(&mut out, sp, format!("[has({m}.k), 'k' in {m}, {m}.contains('k'), {m}['k'] != null, {m}.k == {vsrc}, has({m}.absent), 'absent' in {m}]"), Some("(ok (list (bool 1) (bool 1) (bool 1) (bool 1) (bool 1) (bool 0) (bool 0)))".to_string()), vec!["map", "zero-valued-entry"]);
+            push(&mut out, sp, format!("[{m}].all(e, has(e.k)) && [{m}].exists(e, 'k' in e) && size({m}) == 2"), Some("(ok (bool 1))".to_string()), vec!["map", "zero-valued-entry"]);
         }
     }
     // lists: every index in -2..len+1 and the i64 extremes
